@@ -125,6 +125,7 @@ func (p *Parser) Read() (*base.T, error) {
 		'!',
 		'|',
 		'=',
+		'`',
 		'.':
 
 		t = base.MakeIdentifier(string(p.token))
